@@ -46,8 +46,13 @@ def counters():
     return _st["counters"]
 
 
-def reset(dir_stream=None, bufsize=8192):
-    _st.update(write_plan=None, read_plan=None, bufsize=bufsize, dir_stream=dir_stream,
+COARSE_NS = 1_600_000_000 * 10 ** 9
+
+
+def reset(dir_stream=None, bufsize=8192, coarse_mtime=False):
+    """coarse_mtime: the simulated file system's clock does not advance between writes (coarse timestamp granularity,
+    FAT / ext3 / NFS, or tools that normalise timestamps): every file written under the root keeps one mtime"""
+    _st.update(write_plan=None, read_plan=None, bufsize=bufsize, dir_stream=dir_stream, coarse_mtime=coarse_mtime,
                counters={"opens_w": 0, "opens_r": 0, "globs": 0, "w_ack": 0, "w_error": 0, "w_crash": 0,
                          "r_open_fault": 0, "r_read_fault": 0, "dir_permuted": 0, "listdirs": 0}, in_glob=False)
 
@@ -65,11 +70,20 @@ def disarm():
     _st["read_plan"] = None
 
 
+def _stamp(path):
+    if path is not None and _st.get("coarse_mtime"):
+        try:
+            os.utime(path, ns=(COARSE_NS, COARSE_NS))
+        except OSError:
+            pass
+
+
 class FaultRaw(io.RawIOBase):
-    def __init__(self, real, plan):
+    def __init__(self, real, plan, path=None):
         super().__init__()
         self.real = real
         self.plan = plan
+        self.path = path
         self.n = 0
         self.dead = False
 
@@ -107,6 +121,7 @@ class FaultRaw(io.RawIOBase):
                 if not self.dead and self.plan[0] == "ack":
                     _st["counters"]["w_ack"] += 1
                 self.real.close()
+                _stamp(self.path)
             finally:
                 super().close()
 
@@ -162,13 +177,13 @@ def _under_root(file):
 def sim_open(file, mode="r", buffering=-1, encoding=None, errors=None, newline=None, closefd=True, opener=None):
     if isinstance(file, int) and file in _fd_paths and ("w" in mode or "a" in mode):
         # a descriptor obtained with os.open on a path of the simulated tree: the same write plans apply
-        _fd_paths.pop(file)
+        fd_path = _fd_paths.pop(file)
         c = _st["counters"]
         c["opens_w"] += 1
         plan = _st["write_plan"] or ("ack", 0, 0)
         _st["write_plan"] = None
         real = _real_open(file, mode.replace("t", "").replace("b", "") + "b", buffering=0, closefd=closefd)
-        buf = io.BufferedWriter(FaultRaw(real, plan), buffer_size=max(1, _st["bufsize"]))
+        buf = io.BufferedWriter(FaultRaw(real, plan, fd_path), buffer_size=max(1, _st["bufsize"]))
         if "b" in mode:
             return buf
         return io.TextIOWrapper(buf, encoding=encoding or "utf-8", errors=errors, newline=newline)
@@ -181,7 +196,7 @@ def sim_open(file, mode="r", buffering=-1, encoding=None, errors=None, newline=N
         plan = _st["write_plan"] or ("ack", 0, 0)
         _st["write_plan"] = None
         real = _real_open(p, "wb", buffering=0)  # truncates, as the real call does
-        raw = FaultRaw(real, plan)
+        raw = FaultRaw(real, plan, p)
         buf = io.BufferedWriter(raw, buffer_size=max(1, _st["bufsize"]))
         if "b" in mode:
             return buf
@@ -315,11 +330,13 @@ def write_real(path, text, encoding="utf-8"):
     """harness-side write that bypasses the seam"""
     with _real_open(path, "w", encoding=encoding, newline="") as f:
         f.write(text)
+    _stamp(path)
 
 
 def write_real_bytes(path, data):
     with _real_open(path, "wb") as f:
         f.write(data)
+    _stamp(path)
 
 
 def read_real_bytes(path):
